@@ -66,9 +66,15 @@ fn main() {
         "find-c14" => find2::gen_c14(&mut w, &tier, seed),
         "find-c15" => find2::gen_c15(&mut w, &tier, seed),
         "find-c16" => find2::gen_c16(&mut w, &tier, seed),
-        "find-c18" => findlayer::gen_c18(&mut w, &tier, seed),
+        "find-c18" => {
+            findlayer::gen_c18(&mut w, &tier, seed);
+            find2::gen_c18_slots(&mut w, &tier, seed);
+        }
         "find-c19" => findlayer::gen_c19(&mut w, &tier, seed),
-        "find-c20" => findlayer::gen_c20(&mut w, &tier, seed),
+        "find-c20" => {
+            findlayer::gen_c20(&mut w, &tier, seed);
+            find2::gen_c20_tail(&mut w, &tier, seed);
+        }
         "var-scripts" => varlayer::gen_scripts(&mut w, &tier, seed),
         "var-witness" => varlayer::gen_witness(&mut w, &tier, seed),
         "var-pool" => varlayer::gen_pool(&mut w, &tier, seed),
